@@ -268,6 +268,9 @@ func slice(x, lo, hi, max value) value {
 	if s, ok := x.(symStr); ok {
 		return symStrSlice(s, lo, hi)
 	}
+	if s, ok := x.(symAtom); ok {
+		return symStrSlice(symStr{atomStrTerm(s.t)}, lo, hi)
+	}
 	if isSym(lo) || isSym(hi) || isSym(max) {
 		panic(engineErr("slice expression with symbolic bounds"))
 	}
@@ -990,7 +993,13 @@ func callBuiltin(caller *frame, fn *ssa.Builtin, args []value) value {
 			return arg0
 		}
 		// append([]T, ...[]T) []T
-		return append(args[0].([]value), args[1].([]value)...)
+		// elements are values: struct/array elements must not alias the source cells
+		src := args[1].([]value)
+		dst := args[0].([]value)
+		for _, e := range src {
+			dst = append(dst, cloneValue(e))
+		}
+		return dst
 
 	case "copy": // copy([]T, []T) int or copy([]byte, string) int
 		src := args[1]
@@ -998,7 +1007,20 @@ func callBuiltin(caller *frame, fn *ssa.Builtin, args []value) value {
 			params := fn.Type().(*types.Signature).Params()
 			src = conv(params.At(0).Type(), params.At(1).Type(), src)
 		}
-		return copy(args[0].([]value), src.([]value))
+		d, s := args[0].([]value), src.([]value)
+		n := len(d)
+		if len(s) < n {
+			n = len(s)
+		}
+		// copy semantics for overlapping slices: snapshot the source first
+		tmp := make([]value, n)
+		for i := 0; i < n; i++ {
+			tmp[i] = cloneValue(s[i])
+		}
+		for i := 0; i < n; i++ {
+			assignInto(&d[i], tmp[i])
+		}
+		return n
 
 	case "close": // close(chan T)
 		chanClose(args[0].(*chanv))
@@ -1047,6 +1069,8 @@ func callBuiltin(caller *frame, fn *ssa.Builtin, args []value) value {
 			return len(x.buf)
 		case symStr:
 			return symInt{"(str.len " + x.t + ")", types.Int}
+		case symAtom:
+			return 7
 		default:
 			panic(fmt.Sprintf("len: illegal operand: %T", x))
 		}
@@ -1128,6 +1152,47 @@ func callBuiltin(caller *frame, fn *ssa.Builtin, args []value) value {
 	panic("unknown built-in: " + fn.Name())
 }
 
+// assignInto overwrites the cell *dst with src, keeping the identity of nested
+// struct/array cells (pointers to fields of the old element stay valid).
+func assignInto(dst *value, src value) {
+	switch s := src.(type) {
+	case structure:
+		if d, ok := (*dst).(structure); ok && len(d) == len(s) {
+			for i := range s {
+				assignInto(&d[i], s[i])
+			}
+			return
+		}
+	case array:
+		if d, ok := (*dst).(array); ok && len(d) == len(s) {
+			for i := range s {
+				assignInto(&d[i], s[i])
+			}
+			return
+		}
+	}
+	*dst = src
+}
+
+// cloneValue copies the value-typed (struct, array) layers of v.
+func cloneValue(v value) value {
+	switch v := v.(type) {
+	case structure:
+		c := make(structure, len(v))
+		for i, e := range v {
+			c[i] = cloneValue(e)
+		}
+		return c
+	case array:
+		c := make(array, len(v))
+		for i, e := range v {
+			c[i] = cloneValue(e)
+		}
+		return c
+	}
+	return v
+}
+
 func rangeIter(x value) iter {
 	switch x := x.(type) {
 	case *omap:
@@ -1187,6 +1252,12 @@ func conv(t_dst, t_src types.Type, x value) value {
 		}
 		if s, ok := x.(symStr); ok {
 			return symStrConv(ut_dst, s)
+		}
+		if s, ok := x.(symAtom); ok {
+			if b, ok := ut_dst.(*types.Basic); ok && b.Kind() == types.String {
+				return s
+			}
+			return symStrConv(ut_dst, symStr{atomStrTerm(s.t)})
 		}
 		panic(engineErr(fmt.Sprintf("unsupported symbolic conversion %T -> %s", x, t_dst)))
 	}
